@@ -319,7 +319,7 @@ func FormatDataType(dt *ast.DataType) string {
 		if lit, ok := p.(*ast.Literal); ok {
 			if lit.Type == ast.LiteralString {
 				// String parameters in type need extra escaping: 'val' -> \\\'val\\\'
-				params = append(params, fmt.Sprintf("\\\\\\'%s\\\\\\'", lit.Value))
+				params = append(params, fmt.Sprintf("\\\\\\'%s\\\\\\'", escapeStringForTypeParam(fmt.Sprintf("%s", lit.Value))))
 			} else {
 				params = append(params, fmt.Sprintf("%v", lit.Value))
 			}
